@@ -433,6 +433,30 @@ ben('b-cache-log', ['C13', 'C16'], (cache,
     """    pub async fn flush(&self) {
         debug!("Flushing the object cache");"""), 'log line in flush')
 
+ben('b-c03-truncate', ['C03', 'C13'], (dirf,
+    '''        user_data = match params {
+            HistoryParams::Complete => user_data,
+            HistoryParams::MostRecent(n) => user_data.into_iter().take(n).collect::<Vec<_>>(),
+        };''',
+    '''        if let HistoryParams::MostRecent(n) = params {
+            user_data.truncate(n);
+        }'''), 'take(n) rewritten as in-place truncate(n), still after the filter and the sort')
+ben('b-tree-child-match-order', ['C02', 'C10', 'C13'], (tn,
+    '''            match get_result {
+                Ok(node) => Ok(Some(node)),
+                Err(StorageError::NotFound(_)) => Ok(None),
+                _ => Err(AkdError::Storage(StorageError::NotFound(format!(
+                    "TreeNode {child_key:?}"
+                )))),
+            }''',
+    '''            match get_result {
+                Err(StorageError::NotFound(_)) => Ok(None),
+                Err(_) => Err(AkdError::Storage(StorageError::NotFound(format!(
+                    "TreeNode {child_key:?}"
+                )))),
+                Ok(node) => Ok(Some(node)),
+            }'''), 'match arms reordered, catch-all spelled Err(_)')
+
 out = os.path.join(os.path.dirname(os.path.abspath(__file__)), 'benign.json')
 json.dump({'benign': B}, open(out, 'w'), indent=1)
 print('%d benign variants -> %s' % (len(B), out))
